@@ -1,9 +1,10 @@
 /-
   Spawn side of deadlock freedom, part 2: a stack discipline.
-  A thread inside `ThreadPool::run` (any `run*` frame on its stack) is not inside `Future::join` (frames `join f`,
+  A thread inside `ThreadPool::run` (any `run*` frame on its stack) or running the main thread's own code is not inside `Future::join` (frames `join f`,
   `joinClr f`, `Signal::wait`/`Signal::reset` on a future signal σ ≥ 2) — `spStk_reach`.
 -/
 import Nstd.Future.LiveSpawn1
+import Nstd.Future.LiveProducer1
 set_option linter.unusedSimpArgs false
 set_option linter.unusedVariables false
 namespace Nstd.Future.SP
@@ -20,6 +21,8 @@ def spRun : Frame → Bool
   | .runStart _ | .runChk1 _ | .runPush2 _ | .runChk2 _ | .runSet | .runAdd | .runRdProc _ | .runRdTc _ | .runClk1
   | .runClk2 _ | .runClk3 | .runSpLock | .runSpChk | .runSpUnlock _ | .runSpStart _ | .runSpawned _
   | .runRetLock | .runRetChk | .runRetAfter | .runRetUnlock => true
+  | .mInit | .mSpawn _ | .mSpawned _ _ | .mJoin _ | .mDel
+  | .dPush _ | .dChk1 _ | .dPush2 _ | .dChk2 _ | .dSet _ | .dJoin _ | .dFin => true
   | _ => false
 
 def SpHasJn (l : List Frame) : Prop := ∃ f ∈ l, spJn f = true
@@ -127,7 +130,7 @@ theorem spStk_reach {cfg : Config} (hrep : cfg.repaired = true) {s : State} (h :
     intro t th h
     simp only [State.init] at h
     split at h
-    · injection h with h; subst h; simp [SpStk, spHasRun_cons, spHasRun_nil, spRun]
+    · injection h with h; subst h; simp [SpStk, spHasRun_cons, spHasRun_nil, spRun, spHasJn_cons, spHasJn_nil, spJn]
     · cases h
   | step t hr hs ih => exact spStk_step hrep hr ih hs
 
